@@ -57,10 +57,13 @@ fn main() {
                 alloc::reset();
                 let o = exec_line(&r);
                 // harness memory cap (not for C06, whose subject is the allocation itself)
-                if prop != "C06" && alloc::max_request() > alloc::CAP { capped += 1; continue; }
+                // script-evaluation properties construct values (NUM2BIN, CAT); their cap is 1 MiB so that the list-based
+                // Lean model never has to build multi-megabyte items; wire properties keep the protocol's 32 MiB
+                let cap = if ["C01", "C03", "C07", "C16", "C17", "C18"].contains(&prop.as_str()) { 1usize << 20 } else { alloc::CAP };
+                if prop != "C06" && alloc::max_request() > cap { capped += 1; continue; }
                 writeln!(w, "{}\t{}", r, o).unwrap();
             }
-            if capped > 0 { eprintln!("memcap: dropped {} case(s) whose evaluation requested more than {} bytes at once", capped, alloc::CAP); }
+            if capped > 0 { eprintln!("memcap: dropped {} case(s) whose evaluation requested more than the harness memory cap at once", capped); }
         }
         Some("replay") => {
             let stdin = std::io::stdin();
